@@ -191,6 +191,9 @@ def idxBuild (e : ExpCfg) (i : Inst) : Inst :=
   | some _ => i
   | none => { i with expIdx := some (sortByExp i.recs ((i.recs.filter fun p => member e.coldBuildNe0 p.2.m.exp).map (·.1))) }
 
+/-- marker key used by `step` to observe index adds (no request uses it as a key) -/
+def idxMark : Key := "\x00idx-mark"
+
 /-- the index is re-sorted whenever a key is added to it -/
 def idxResort (i : Inst) : Inst :=
   match i.expIdx with
@@ -257,9 +260,21 @@ def fopEval (guard0 isEmptyEq0 : Bool) (op : FOp) (exp ref : Int) : Bool :=
 
 def step (cfg : Cfg) (e : ExpCfg) (ar : Arith) (now : Int) (s : State) : Req30 → Out30
   | .kv r =>
-    -- the data requests keep the index sorted after an incremental add as well
-    let o := Model.step cfg ar now s r
-    ⟨match o.s.live with | some i => { o.s with live := some (idxResort i) } | none => o.s, .kv o.r⟩
+    -- `addToExpirationTimeBeacon` appends the treasure and sorts the index; nothing else sorts it.  To see
+    -- whether the data request added (or re-filed: removed and appended) a key, a marker is put at the end
+    -- of the index for the duration of the request: an add leaves a key behind the marker.
+    let s0 := match s.live with
+      | some i => { s with live := some { i with expIdx := i.expIdx.map (· ++ [idxMark]) } }
+      | none => s
+    let o := Model.step cfg ar now s0 r
+    ⟨match o.s.live with
+      | some i =>
+        (match i.expIdx with
+         | some l =>
+           let i' := { i with expIdx := some (l.filter (· != idxMark)) }
+           { o.s with live := some (if l.getLast? != some idxMark && l.contains idxMark then idxResort i' else i') }
+         | none => o.s)
+      | none => o.s, .kv o.r⟩
   | .shiftExp n =>
     if s.dead then ⟨s, .skip⟩
     else if !exists_ s then ⟨s, .err "FailedPrecondition"⟩
